@@ -587,14 +587,20 @@ pub fn check_c16_ops(ops: &[Op], st: &mut Stats, out: &mut Vec<Violation>) {
                             format!("op {opi}: add edge {a}->{bb} returned {}, reference says {}", if r.is_ok() { "Ok" } else { "WouldCycle" }, if want { "accept" } else { "WouldCycle" }),
                         ));
                     }
+                    // WouldCycle hands back the edge that was refused, i.e. the kind just given
+                    if let Err(fn_graph::WouldCycle(kind_back)) = &r {
+                        if tfn::bk(*kind_back) != BK::from(*k) {
+                            problems.push(v("C16", "would-cycle-carries-wrong-kind", format!("op {opi}: the refused edge {a}->{bb} was given as {k:?}, WouldCycle carries {kind_back:?}")));
+                        }
+                    }
                 }
                 Op::Edges(k, es) => {
                     let pairs: Vec<(fn_graph::FnId, fn_graph::FnId)> = es.iter().map(|&(a, bb)| (ids[a], ids[bb])).collect();
                     macro_rules! call {
                         ($arr:expr) => {
                             match k {
-                                EK::Logic => b.add_logic_edges($arr).map(|x| x.len()),
-                                EK::Contains => b.add_contains_edges($arr).map(|x| x.len()),
+                                EK::Logic => b.add_logic_edges($arr).map(|x| x.len()).map_err(|e| e.0),
+                                EK::Contains => b.add_contains_edges($arr).map(|x| x.len()).map_err(|e| e.0),
                             }
                         };
                     }
@@ -614,6 +620,11 @@ pub fn check_c16_ops(ops: &[Op], st: &mut Stats, out: &mut Vec<Violation>) {
                             break;
                         }
                         counts.0 += 1;
+                    }
+                    if let Err(kind_back) = &r {
+                        if tfn::bk(*kind_back) != BK::from(*k) {
+                            problems.push(v("C16", "would-cycle-carries-wrong-kind", format!("op {opi}: batch {es:?} was given as {k:?}, WouldCycle carries {kind_back:?}")));
+                        }
                     }
                     if r.is_ok() != want_ok {
                         problems.push(v("C16", "batch-result", format!("op {opi}: batch {es:?} returned {}, reference says {}", if r.is_ok() { "Ok" } else { "WouldCycle" }, if want_ok { "Ok" } else { "WouldCycle" })));
@@ -804,6 +815,23 @@ pub fn check_c17(gs: &GraphSpec, st: &mut Stats, out: &mut Vec<Violation>) {
                         added += 1;
                     }
                 }
+            }
+        }
+        // a value that was pruned after it was assembled (public `graph` field): removing an edge
+        // or a node re-links petgraph's adjacency lists, which a deserialised copy rebuilds in
+        // index order
+        if added >= 2 && rng.chance(1, 3) {
+            let e = fn_graph::daggy::EdgeIndex::new(rng.below(added));
+            if dag.remove_edge(e).is_some() {
+                added -= 1;
+            }
+        }
+        if k >= 3 && rng.chance(1, 6) {
+            let victim = ids[rng.below(k)];
+            let gone = dag.graph().edges_directed(victim, fn_graph::daggy::petgraph::Direction::Outgoing).count()
+                + dag.graph().edges_directed(victim, fn_graph::daggy::petgraph::Direction::Incoming).count();
+            if dag.remove_node(victim).is_some() {
+                added -= gone;
             }
         }
         let gi = GraphInfo::new(dag);
@@ -1449,11 +1477,12 @@ pub fn run(opts: &Opts) -> Option<(Stats, Vec<String>, String)> {
         }
         let huge_per_run: u64 = if prop == "C12" { if q { 1 } else { 3 } } else if q { 2 } else { 6 };
         if cases >= 64 && i % (cases / huge_per_run).max(1) == 57 % (cases / huge_per_run).max(1) {
-            // beyond the next powers of two (4096; thorough also 8192): buffers, batches and search
+            // beyond the next power of two (4096): buffers, batches and search
             // cut-offs sized by a round constant. build() is cubic in the number of conflicting
             // functions, so only a handful of functions declare accesses.
             fam = [Family::FanOut, Family::Isolated, Family::FanIn, Family::Chain][((i / (cases / huge_per_run).max(1)) % 4) as usize];
-            n = if q || rng.chance(1, 2) { rng.range(4100, 4600) } else { rng.range(8200, 8800) };
+            // (the reference model is cubic as well: 8000+ functions would run into the per-case watchdog on a loaded machine)
+            n = rng.range(4100, 4600);
             p.hostile_calls = false;
             p.types = 0;
             let mut gs = gen::random_graph_of(&mut rng, fam, n, &p);
